@@ -12,9 +12,11 @@
                 that short histories start from pools with idle / oversize / unopened files;
      slots    - OpenWriter uses the lowest free slot (slots are interchangeable);
      a trailing Write cannot influence anything observable; explicit gcReaders /
-                gcWriters only on pools that hold such handles; no two refused DB.Close in a row. *)
+                gcWriters only on pools that hold such handles; no two refused DB.Close in a row;
+                at most Noise calls of the kinds gcReaders / gcWriters / no-op garbageCollectFile /
+                refused DB.Close per behaviour.                                        *)
 EXTENDS FileController, Json
-CONSTANTS Depth, PrefixId
+CONSTANTS Depth, PrefixId, Noise
 VARIABLES hist, emitted
 
 P(a, s, k, n) == [a |-> a, s |-> s, k |-> k, n |-> n]
@@ -50,6 +52,8 @@ Rec == [a |-> op'.a, s |-> op'.s, k |-> op'.k, n |-> op'.n, f |-> op'.f, h |-> o
         pd |-> [i \in 1..Len(pend') |-> <<pend'[i].t, pend'[i].a>>],
         gc |-> gc', lq |-> Len(lockq'), cl |-> B(closed')]
 
+\* calls that mostly leave the pool as it is (at most Noise of them per behaviour)
+IsNoise(a, r) == a \in {"gcnoop", "gcw", "gcr"} \/ (a = "close" /\ r = "busy")
 GNext ==
   /\ Len(hist) < Depth
   /\ Next
@@ -65,6 +69,7 @@ GNext ==
   /\ op'.a = "gcr" => Total(ru) + Total(ri) > 0
   /\ op'.a = "gcw" => WH(Cur) # {}
   /\ (op'.a = "close" /\ res' = "busy") => op.a # "close"
+  /\ IsNoise(op'.a, res') => Cardinality({i \in 1..Len(hist) : IsNoise(hist[i].a, hist[i].r)}) < Noise
 EmitStep ==
   /\ Len(hist) = Depth /\ ~emitted
   /\ PrintT(<<"HIST", ToJson(hist)>>)
